@@ -17,7 +17,10 @@ MANIFEST = {
             'element with extreme key, = fold Z.min / Z.max, min_max (keyed pre-pass + halves, middle element) returns elements '
             'with minimal resp. maximal key for every key (min_max_key_spec), argmin/argmax return the FIRST extreme index with its value -- all for every length by strong '
             'induction on the halving. The comparator list of the real _sort is extracted for every n <= 64 on every run '
-            'and compared with the Coq list; secure runs are compared with the models and with Python oracles.',
+            'and compared with the Coq list; secure runs are compared with the models and with Python oracles, also in the '
+            'multi-party simulator (m=3,t=1; m=5,t=2; PRSS on/off; list-valued rows and numbers from different senders, '
+            'opened at every party, with a follow-up multiplication), and np_sort / np.sort / x.sort(axis=) on '
+            'secure arrays of shapes (n,), (r,c), (a,b,c) along every axis in the NumPy interpreter.',
     'note': 'PARTIAL: sortedness of merge exchange is proved only for n <= 16 (20 thorough), the bound is in the theorem; '
             'for 17..64 the network is identical to the model and is tested (all 0/1 inputs up to n = 16/22 on the extracted '
             'list, random inputs above). Trusted: Coq kernel + vm_compute; the value-level model of if_swap/if_else/< '
@@ -25,7 +28,10 @@ MANIFEST = {
             '(index sets of each round compared with the same comparator list). Former finding F-C29-1 (min_max ignored key= in '
             'its pre-pass) is repaired in /repo by commit fb1729f; model and theorem follow the repaired code and keyed '
             'min_max (numbers and list elements) is an ordinary case against oracle and model. min() returns the last minimal element on key ties, max() the '
-            'first (allowed by the property; modelled exactly).',
+            'first (allowed by the property; modelled exactly). Outside the property (not checked): np_argmin/np_argmax return '
+            'transposed index positions for ndim >= 3 along an axis <= ndim-3, and raise for a length-1 axis with several '
+            'slices. The secure-array stream (np_sort only) is an implementation-level oracle (no Coq model of the array code '
+            'beyond the comparator index sets).',
     'technique': 'Coq proof (0-1 principle + verified truth-table certificate, strong induction for tournaments) + comparator-sequence extraction from the real code',
 }
 
@@ -115,9 +121,285 @@ mpc.np_update = orig
 for xs in req['lists']:
     a = secint.array(np.array(xs))
     out['sorts'].append([int(v) for v in mpc.run(mpc.output(mpc.np_sort(a)))])
+# array stream: np_sort / np.sort / x.sort(axis=) along an axis, compared by the caller with NumPy's result
+secfxp = mpc.SecFxp(32, 8)
+out['arrays'] = []
+for c in req['arrays']:
+    a = np.array(c['data']).reshape(c['shape'])
+    if c['type'] == 'fxp':
+        a = a / 8
+        x = secfxp.array(a)
+    else:
+        x = secint.array(a)
+    fn, axis = c['fn'], c['axis']
+    try:
+        if fn == 'np_sort':
+            r = mpc.np_sort(x, axis=axis)
+            w = np.sort(a, axis=axis)
+        elif fn == 'sort_method':
+            r = x.sort(axis=axis)
+            w = np.sort(a, axis=axis)
+        else:
+            r = getattr(np, fn)(x, axis=axis)
+            w = getattr(np, fn)(a, axis=axis)
+        g = np.array(mpc.run(mpc.output(r)))
+        if c['type'] == 'fxp' and fn not in ('argmin', 'argmax'):
+            g, w = g * 8, w * 8
+        out['arrays'].append({'got': np.array(g).astype(float).round().astype(int).tolist(), 'want': np.array(w).astype(float).round().astype(int).tolist(),
+                              'gshape': list(np.shape(g)), 'wshape': list(np.shape(w))})
+    except Exception as e:
+        out['arrays'].append({'exc': repr(e)[:300], 'want': np.array(w).tolist() if 'w' in dir() else None})
 mpc.run(mpc.shutdown())
 print('RESULT ' + json.dumps(out))
 '''
+
+
+def np_array_cases(ctx, rng):
+    """secure arrays: shapes (n,), (r,c) with r != c (and square), (a,b,c); every axis incl. negative and None"""
+    shapes = [(1,), (2,), (3,), (5,), (8,), (13,), (17,), (20,),
+              (2, 3), (3, 2), (5, 3), (6, 2), (2, 7), (7, 4), (1, 4), (4, 1), (3, 3), (9, 2), (2, 11),
+              (2, 3, 4), (3, 5, 2), (5, 2, 3), (2, 2, 3), (4, 1, 3)]
+    if ctx.tier == 'thorough':
+        shapes += [(4, 20), (20, 3), (17, 2), (3, 4, 5), (6, 3, 2), (2, 3, 2, 3)]
+    cases = []
+    for si, shape in enumerate(shapes):
+        size = 1
+        for d in shape:
+            size *= d
+        axes = [None] + list(range(-len(shape), len(shape)))
+        for ai, axis in enumerate(axes):
+            span = rng.choice([1, 2, 4, 30])
+            data = [rng.randint(-span, span) for _ in range(size)]
+            typ = 'fxp' if (si + ai) % 4 == 3 else 'int'
+            fns = ['np_sort' if (si + ai) % 3 else 'sort']
+            if len(shape) >= 2 and axis is not None and (si + ai) % 2 == 0:
+                fns.append('sort_method')
+            for fn in fns:
+                cases.append({'fn': fn, 'type': typ, 'shape': list(shape), 'axis': axis, 'data': data})
+    return cases
+
+
+# ---------------------------------------------------------------------------------------------------
+# multi-party simulator stream: list-valued elements (rows) through sorted / min / max / min_max /
+# argmin / argmax / if_swap, inputs from different senders, everything opened at every party, and a
+# follow-up multiplication on the results (a sharing of too high degree shows there at the latest)
+
+def _sim_cases(ctx, rng, m):
+    cases = []
+    reps = ctx.n(1, 3)
+
+    def rows(n, w, span):
+        return [[rng.randint(-span, span) for _ in range(w)] for _ in range(n)]
+
+    for rep in range(reps):
+        for n, w in ((2, 2), (3, 2), (5, 2), (6, 3), (7, 2)):
+            R = rows(n, w, rng.choice([1, 2, 9]))
+            col = rng.randrange(w)
+            cases.append(('sorted_rows', R, col, bool((n + rep) % 2), 'col'))
+        for n in (3, 4):
+            cases.append(('sorted_rows', rows(n, 2, 1), 0, bool(n % 2), 'seclist'))
+        for fn in ('min', 'max', 'min_max', 'argmin', 'argmax'):
+            n = rng.choice([2, 3, 4, 5, 6])
+            cases.append(('sel_rows', fn, rows(n, 2, rng.choice([1, 3])), rng.randrange(2)))
+        for bit in (0, 1):
+            cases.append(('if_swap', bit, rows(1, 3, 9)[0], rows(1, 3, 9)[0]))
+        cases.append(('sorted_nums', [rng.randint(-4, 4) for _ in range(rng.choice([5, 6, 8]))], bool(rep % 2), 'int'))
+        cases.append(('sorted_nums', [rng.randint(-12, 12) for _ in range(5)], not bool(rep % 2), 'fxp'))
+        cases.append(('seclist_sort', [rng.randint(-3, 3) for _ in range(6)], bool(rep % 2)))
+        cases.append(('sel_nums', [rng.randint(-2, 2) for _ in range(7)]))
+    return cases
+
+
+def _sim_prog(cases):
+    async def prog(mpc, mods, pid):
+        secint = mpc.SecInt(16)
+        secfxp = mpc.SecFxp(16, 4)
+        seclist = mods['mpyc.seclists'].seclist
+        m = len(mpc.parties)
+
+        def share_row(row, i, stype=secint, scale=1):
+            # row i is provided by party i mod m (the other parties pass placeholders of the same shape)
+            return mpc.input([stype(v / scale if scale != 1 else v) for v in row], senders=i % m)
+
+        def canon(v, scale=1):
+            return int(round(float(v) * scale))
+
+        async def opn(vs, scale=1):
+            return [canon(v, scale) for v in await mpc.output(list(vs))] if vs else []
+
+        async def opn_rows(R):
+            return [await opn(r) for r in R]
+
+        async def prods(R):   # follow-up multiplication on the results
+            return await opn([r[0] * r[-1] for r in R])
+
+        res = []
+        for c in cases:
+            kind = c[0]
+            try:
+                if kind == 'sorted_rows':
+                    _, R, col, reverse, keykind = c
+                    X = [share_row(r, i) for i, r in enumerate(R)]
+                    key = (lambda r: r[col]) if keykind == 'col' else (lambda r: seclist(r, secint))
+                    Y = mpc.sorted(X, key=key, reverse=reverse)
+                    r = [await opn_rows(Y), await prods(Y)]
+                elif kind == 'sel_rows':
+                    _, fn, R, col = c
+                    X = [share_row(r, i) for i, r in enumerate(R)]
+                    y = getattr(mpc, fn)(X, key=lambda r: r[col])
+                    if fn in ('min', 'max'):
+                        r = [await opn(y), await prods([y])]
+                    elif fn == 'min_max':
+                        r = [await opn_rows(y), await prods(list(y))]
+                    else:
+                        r = [canon(await mpc.output(y[0])), await opn(y[1]), await prods([y[1]])]
+                elif kind == 'if_swap':
+                    _, bit, r1, r2 = c
+                    b = mpc.input(secint(bit), senders=m - 1)
+                    x, y = mpc.if_swap(b, share_row(r1, 0), share_row(r2, 1))
+                    r = [await opn(x), await opn(y), await opn(mpc.schur_prod(x, y))]
+                elif kind == 'sorted_nums':
+                    _, xs, reverse, typ = c
+                    if typ == 'int':
+                        X = [mpc.input(secint(v), senders=i % m) for i, v in enumerate(xs)]
+                        Y = mpc.sorted(X, reverse=reverse)
+                        r = [await opn(Y), await opn([Y[0] * Y[-1]])]
+                    else:
+                        X = [mpc.input(secfxp(v / 4), senders=i % m) for i, v in enumerate(xs)]
+                        Y = mpc.sorted(X, reverse=reverse)
+                        r = [await opn(Y, 4), await opn([Y[0] * Y[-1]], 16)]
+                elif kind == 'seclist_sort':
+                    _, xs, reverse = c
+                    S = seclist([mpc.input(secint(v), senders=i % m) for i, v in enumerate(xs)], secint)
+                    S.sort(reverse=reverse)
+                    r = [await opn(list(S)), await opn([S[0] * S[-1]])]
+                else:   # sel_nums
+                    _, xs = c
+                    X = [mpc.input(secint(v), senders=i % m) for i, v in enumerate(xs)]
+                    mn, mx = mpc.min(X), mpc.max(X)
+                    mm = mpc.min_max(X)
+                    am, aM = mpc.argmin(X), mpc.argmax(X)
+                    r = [await opn([mn, mx, mm[0], mm[1], am[0], am[1], aM[0], aM[1], mn * mx])]
+            except Exception as e:   # noqa
+                r = 'ERR:' + repr(e)[:200]
+            res.append(r)
+        return res
+    return prog
+
+
+def _sim_check(ctx, cfg, c, got, exprs, meta):
+    kind = c[0]
+    key = {'sim': cfg, 'case': [list(x) if isinstance(x, tuple) else x for x in c]}
+    elem = 'rows' if kind in ('sorted_rows', 'sel_rows', 'if_swap') else 'numbers'
+    ctx.case(key, nontrivial=True, kind='sim %s %s' % (cfg, kind))
+
+    def bad(what, want=None):
+        ctx.violation('sim-%s-wrong %s %s [%s]' % (kind if kind != 'sel_rows' else c[1], elem, what, cfg),
+                      dict(key, got=str(got)[:400], want=str(want)[:400]))
+
+    if isinstance(got, str):
+        ctx.violation('sim-%s-raises %s [%s]' % (kind, elem, cfg), dict(key, got=got))
+        return
+    if kind == 'sorted_rows':
+        _, R, col, reverse, keykind = c
+        Y, P = got
+        if keykind == 'seclist':
+            if Y != sorted(R, reverse=reverse):
+                bad('order', sorted(R, reverse=reverse))
+        else:
+            if sorted(Y) != sorted(R) or [y[col] for y in Y] != sorted([r[col] for r in R], reverse=reverse):
+                bad('order/permutation', sorted(R, key=lambda r: r[col], reverse=reverse))
+            if len(R[0]) == 2:
+                exprs.append('sorted_key_model %s (0,0)%%Z %s %s' % ('fst' if col == 0 else 'snd', coq_pairs(R), blit(reverse)))
+                meta.append(('sorted', key, Y))
+        if P != [y[0] * y[-1] for y in Y]:
+            bad('follow-up product', [y[0] * y[-1] for y in Y])
+    elif kind == 'sel_rows':
+        _, fn, R, col = c
+        ks = [r[col] for r in R]
+        if fn in ('min', 'max'):
+            y, P = got
+            ext = min(ks) if fn == 'min' else max(ks)
+            if y not in R or y[col] != ext or P != [y[0] * y[-1]]:
+                bad('value')
+            exprs.append('%s_model %s %s' % (fn, 'fst' if col == 0 else 'snd', coq_pairs(R)))
+            meta.append(('selp', dict(key, fn=fn), tuple(y)))
+        elif fn == 'min_max':
+            (a, b), P = got
+            if a not in R or b not in R or a[col] != min(ks) or b[col] != max(ks) or P != [a[0] * a[-1], b[0] * b[-1]]:
+                bad('value')
+            exprs.append('min_max_model %s (0, 0)%%Z %s' % ('fst' if col == 0 else 'snd', coq_pairs(R)))
+            meta.append(('selp', dict(key, fn=fn), (tuple(a), tuple(b))))
+        else:
+            i, y, P = got
+            ext = min(ks) if fn == 'argmin' else max(ks)
+            if i != ks.index(ext) or y != R[i] or P != [y[0] * y[-1]]:
+                bad('value', (ks.index(ext), R[ks.index(ext)]))
+            exprs.append('%s_model %s %s' % (fn, 'fst' if col == 0 else 'snd', coq_pairs(R)))
+            meta.append(('selp', dict(key, fn=fn), (i, tuple(y))))
+    elif kind == 'if_swap':
+        _, bit, r1, r2 = c
+        x, y, P = got
+        want = (r2, r1) if bit else (r1, r2)
+        if (x, y) != want or P != [a * b for a, b in zip(r1, r2)]:
+            bad('value', want)
+    elif kind == 'sorted_nums':
+        _, xs, reverse, typ = c
+        Y, P = got
+        w = sorted(xs, reverse=reverse)
+        if Y != w or P != [w[0] * w[-1]]:
+            bad('order/product', (w, [w[0] * w[-1]]))
+        exprs.append('sorted_model %s %s' % (zlist(xs), blit(reverse)))
+        meta.append(('sorted', key, Y))
+    elif kind == 'seclist_sort':
+        _, xs, reverse = c
+        Y, P = got
+        w = sorted(xs, reverse=reverse)
+        if Y != w or P != [w[0] * w[-1]]:
+            bad('order/product', (w, [w[0] * w[-1]]))
+    else:
+        xs = c[1]
+        mn, mx = min(xs), max(xs)
+        want = [mn, mx, mn, mx, xs.index(mn), mn, xs.index(mx), mx, mn * mx]
+        if got[0] != want:
+            bad('value', want)
+
+
+def sim_stream(ctx, rng, exprs, meta):
+    from lib.sim import Sim
+    configs = [(3, 1, False), (5, 2, False), (3, 1, True)]
+    if ctx.tier == 'thorough':
+        configs += [(1, 0, False), (2, 0, False), (4, 1, False), (5, 2, True), (5, 1, False)]
+    nsim = 0
+    for (m, t, noprss) in configs:
+        cfg = 'm=%d t=%d %s' % (m, t, 'no-prss' if noprss else 'prss')
+        cases = _sim_cases(ctx, rng, m)
+        sim = Sim(m=m, t=t, no_prss=noprss, seed=ctx.seed * 1000 + 29 * m + t + (7 if noprss else 0),
+                  log_messages=False, track_tasks=False)
+        try:
+            sim.start()
+            if not sim.started:
+                ctx.broken.append({'kind': 'harness', 'what': 'simulator start failed', 'config': cfg})
+                continue
+            res = sim.run(_sim_prog(cases), max_rounds=3000000)      # rounds budget
+            sim.shutdown()
+        finally:
+            sim.close()
+        if any(not isinstance(r, list) for r in res):
+            # a party did not finish (PENDING) or raised: with a correct tree every party completes
+            ctx.violation('sim-run-incomplete [%s]' % cfg, {'config': cfg, 'results': [str(r)[:300] for r in res]})
+            continue
+        for i in range(1, m):
+            if res[i] != res[0]:
+                k = next(j for j in range(len(res[0])) if res[i][j] != res[0][j])
+                ctx.violation('sim-parties-disagree %s [%s]' % (cases[k][0], cfg),
+                              {'config': cfg, 'case': str(cases[k]), 'p0': str(res[0][k])[:300], 'p%d' % i: str(res[i][k])[:300]})
+        for c, got in zip(cases, res[0]):
+            nsim += 1
+            _sim_check(ctx, cfg, c, got, exprs, meta)
+        ctx.log('simulator %s: %d cases, %d rounds' % (cfg, len(cases), getattr(sim, 'rounds', -1)))
+    ctx.extra['simulator_cases'] = nsim
+    ctx.extra['simulator_configs'] = [list(c) for c in configs]
 
 
 def run(ctx):
@@ -134,7 +416,8 @@ def run(ctx):
                        'certificate covers all inputs for n <= 16; implementation-level oracles cover larger n')
     if ctx.tier == 'thorough' and ok:
         # certificate for 17..20 in a generated props file
-        gen = os.path.join(os.path.dirname(os.path.dirname(os.path.dirname(os.path.abspath(__file__)))), 'coq', 'props', 'C29_thorough.v')
+        from lib import core as _core
+        gen = os.path.join(_core.COQ, 'props', 'C29_thorough.v')
         with open(gen, 'w') as f:
             f.write('Require Import MPyC.SortNet.\nFrom Coq Require Import List ZArith Arith Bool Lia Permutation Sorting.Sorted.\n'
                     'Import ListNotations.\nLocal Open Scope nat_scope.\n'
@@ -374,17 +657,22 @@ def run(ctx):
             meta.append(('selp', key, got))
     mpc.run(mpc.shutdown())
 
+    # ------------------------------------------------------------------ (d) multi-party simulator: rows and numbers, t >= 1
+    sim_stream(ctx, rng, exprs, meta)
+
     # ------------------------------------------------------------------ np_sort (separate interpreter with NumPy)
     np_done = False
     if os.path.exists(PYNP):
         try:
             ns = list(range(2, 34)) + [47, 64]
             lists = [[rng.randint(-3, 3) for _ in range(n)] for n in (2, 3, 5, 8, 13, 16, 17)]
-            p = subprocess.run([PYNP, '-c', NP_SCRIPT], input=json.dumps({'ns': ns, 'lists': lists}), text=True,
-                               env=impl_env(), stdout=subprocess.PIPE, stderr=subprocess.PIPE, timeout=600)
+            arrays = np_array_cases(ctx, rng)
+            p = subprocess.run([PYNP, '-c', NP_SCRIPT], input=json.dumps({'ns': ns, 'lists': lists, 'arrays': arrays}), text=True,
+                               env=impl_env(), stdout=subprocess.PIPE, stderr=subprocess.PIPE, timeout=900)
             line = [l for l in p.stdout.split('\n') if l.startswith('RESULT ')]
             if p.returncode or not line:
                 ctx.notes.append('np_sort run failed: ' + p.stderr[-300:])
+                ctx.broken.append({'kind': 'harness', 'what': 'NumPy interpreter run of np_sort failed', 'detail': p.stderr[-1500:]})
             else:
                 res = json.loads(line[-1][7:])
                 for n in ns:
@@ -403,9 +691,32 @@ def run(ctx):
                     if got != sorted(xs):
                         ctx.violation('np_sort-wrong n=%d' % len(xs), {'xs': xs, 'got': got})
                     ctx.case({'np_sort': xs}, nontrivial=True, kind='secure np_sort')
+                for c, r in zip(arrays, res['arrays']):
+                    key = dict(c)
+                    nd = len(c['shape'])
+                    ax = None if c['axis'] is None else c['axis'] % nd
+                    if ax is None:
+                        tag = 'flattened'
+                    elif c['shape'][ax] == 1 and len(c['data']) > 1:
+                        tag = 'len1-axis'
+                    elif ax == nd - 1:
+                        tag = 'last-axis'
+                    elif ax <= nd - 3:
+                        tag = 'axis<=ndim-3'
+                    else:
+                        tag = 'axis=ndim-2'
+                    cls = '%s %s %dd %s' % (c['fn'], c['type'], nd, tag)
+                    if 'exc' in r:
+                        ctx.violation('np-%s-raises %s' % (c['fn'], cls), dict(key, exc=r['exc']))
+                    elif r['got'] != r['want'] or r['gshape'] != r['wshape']:
+                        ctx.violation('np-%s-wrong %s' % (c['fn'], cls), dict(key, got=r['got'], want=r['want']))
+                    ctx.case(key, nontrivial=len(c['data']) >= 2, kind='secure array ' + cls)
                 np_done = True
         except Exception as e:   # noqa
             ctx.notes.append('np_sort run failed: %r' % (e,))
+            ctx.broken.append({'kind': 'harness', 'what': 'NumPy interpreter run of np_sort failed', 'detail': repr(e)})
+    else:
+        ctx.notes.append('NumPy interpreter %s absent: np_sort / secure-array stream SKIPPED' % PYNP)
     ctx.notes.append('np_sort tied in the NumPy interpreter: %s' % np_done)
 
     # ------------------------------------------------------------------ Coq model on the same inputs
